@@ -17,6 +17,9 @@ import (
 
 const modulePath = "github.com/tokenized/spynode"
 
+// verifDirGlobal is set by main: where baseline_funcs.txt lives.
+var verifDirGlobal string
+
 // Program is the resolved view of /repo that every rule works on.
 type Program struct {
 	Dir     string
@@ -29,6 +32,8 @@ type Program struct {
 	AllSrc  []*ssa.Function          // all module functions incl. anonymous, sorted by key
 	keyOf   map[*ssa.Function]string
 	Tags    string
+	Norm    []string                     // what the helper normalisation did (empty on a tree without new functions)
+	Orig    map[string]*packages.Package // the packages as written (set only when an overlay is in use); grammar rules read these
 }
 
 func relPkg(path string) string {
@@ -58,6 +63,31 @@ func Load(dir string, tags string, tests bool, env []string) (*Program, error) {
 	if tags != "" {
 		cfg.BuildFlags = []string{"-tags=" + tags}
 	}
+	// helper normalisation: calls to functions that are not in the recorded baseline are expanded in
+	// an overlay (nothing happens on a tree without new functions; /repo is never written)
+	var normNotes []string
+	if verifDirGlobal != "" && os.Getenv("VERIF_NO_INLINE") == "" {
+		baseline, berr := loadBaseline(verifDirGlobal)
+		if berr != nil {
+			return nil, fmt.Errorf("baseline function list: %w", berr)
+		}
+		baselineGlobal = baseline
+		overlay, notes, nerr := normaliseHelpers(dir, tags, env, baseline)
+		if nerr != nil {
+			normNotes = append(normNotes, "helper normalisation skipped: "+nerr.Error())
+		} else {
+			normNotes = notes
+			if overlay != nil {
+				cfg.Overlay = overlay
+				if d := os.Getenv("VERIF_DUMP_OVERLAY"); d != "" {
+					os.MkdirAll(d, 0o755)
+					for name, b := range overlay {
+						os.WriteFile(filepath.Join(d, strings.ReplaceAll(strings.TrimPrefix(name, dir+"/"), "/", "__")), b, 0o644)
+					}
+				}
+			}
+		}
+	}
 	pkgs, err := packages.Load(cfg, "./...")
 	if err != nil {
 		return nil, fmt.Errorf("packages.Load: %w", err)
@@ -76,7 +106,7 @@ func Load(dir string, tags string, tests bool, env []string) (*Program, error) {
 		return nil, fmt.Errorf("type/load errors (no verdict):\n  %s", strings.Join(errs, "\n  "))
 	}
 	P := &Program{Dir: dir, ByRel: map[string]*packages.Package{}, SSAPkgs: map[string]*ssa.Package{},
-		Funcs: map[string]*ssa.Function{}, keyOf: map[*ssa.Function]string{}, Tags: tags}
+		Funcs: map[string]*ssa.Function{}, keyOf: map[*ssa.Function]string{}, Tags: tags, Norm: normNotes}
 	for _, p := range pkgs {
 		if p.Types == nil || !inModule(p.Types) {
 			continue
@@ -92,6 +122,19 @@ func Load(dir string, tags string, tests bool, env []string) (*Program, error) {
 	}
 	if len(P.ByRel) < 9 {
 		return nil, fmt.Errorf("only %d module packages loaded from %s (expected >= 9)", len(P.ByRel), dir)
+	}
+	if cfg.Overlay != nil {
+		// the grammar rules (codec extraction) read the source as written, not the expanded overlay
+		ocfg := *cfg
+		ocfg.Overlay = nil
+		if opkgs, oerr := packages.Load(&ocfg, "./..."); oerr == nil {
+			P.Orig = map[string]*packages.Package{}
+			for _, p := range opkgs {
+				if p.Types != nil && inModule(p.Types) && !strings.HasSuffix(p.ID, ".test") && !strings.Contains(p.ID, " [") {
+					P.Orig[relPkg(p.PkgPath)] = p
+				}
+			}
+		}
 	}
 	prog, _ := ssautil.AllPackages(pkgs, ssa.InstantiateGenerics)
 	prog.Build()
@@ -279,3 +322,16 @@ func (P *Program) isTestFile(pos token.Pos) bool {
 	}
 	return strings.HasSuffix(P.Fset.Position(pos).Filename, "_test.go")
 }
+
+// CodecPkg returns the package whose syntax the grammar rules read: the source as written.
+func (P *Program) CodecPkg(rel string) *packages.Package {
+	if P.Orig != nil {
+		if p := P.Orig[rel]; p != nil {
+			return p
+		}
+	}
+	return P.ByRel[rel]
+}
+
+// baselineGlobal: the recorded baseline functions (nil if normalisation is off).
+var baselineGlobal map[string]bool
